@@ -571,8 +571,20 @@ const PIPELINES: [Backend; 4] = [Backend::Native, Backend::Bridged, Backend::Hyb
 
 pub fn c09_small(cfg: &Cfg, rep: &mut Report, case_seed: u64) {
     let nm = cfg.get_usize("nmax", if cfg.thorough { 10 } else { 8 });
-    let case = crate::sem::small_case(case_seed, nm);
+    let mut case = crate::sem::small_case(case_seed, nm);
     let mut rng = Rng::new(case_seed ^ 0xC09);
+    if rng.chance(1, 8) {
+        // "formulas of any size": one condition nested 30 to 300 levels deep, through every pipeline
+        let all: Vec<usize> = (0..case.g.n).collect();
+        let s = rng.below(case.g.n);
+        let d = rng.range(30, cfg.get_usize("max_depth", 300));
+        case.g.ac[s] = deep_formula(&mut rng, &all, d);
+        rep.max("max_nesting_depth", case.g.ac[s].depth() as u64);
+        rep.count("cases_with_a_deeply_nested_condition", 1);
+        let r = case.g.render(&mut rng, true);
+        case.text = r.text;
+        case.sem = oracle::sem::Sem::new(&case.g.ac);
+    }
     rep.evaluations += 1;
     let grounded = case.sem.grounded();
     let kinds: u32 = case.g.ac.iter().map(|f| f.kinds()).fold(0, |a, b| a | b);
